@@ -203,6 +203,96 @@ def run_seam_case(st, keep_log=False, params_long=False):
     return res
 
 
+def run_history_case(st, keep_log=False):
+    """Weaver.noise as a LATER step of a history: the signal whose power counts is the processed series at that moment."""
+    res = R.Result()
+    weaver = importlib.import_module("traffic_weaver.weaver")
+    rfa = importlib.import_module("traffic_weaver.rfa")
+    n0 = st.draw(6, 60, "n")
+    ys = [st.draw(-4000, 4000, "v") / 97.0 for _ in range(n0)]
+    xs = [2.0 + 0.5 * i for i in range(n0)]
+    wv = weaver.Weaver(np.array(xs), np.array(ys))
+    hist = []
+    seam = RngSeam()
+    seed = st.draw(0, 10 ** 6, "rng-seed")
+    seam.seed(seed)
+    key = "mode=history"
+    case = {"n0": n0, "history": hist, "via": "weaver-history"}
+    try:
+        seam.install()
+        try:
+            with warnings.catch_warnings():
+                warnings.simplefilter("ignore")
+                np.random.seed(seed % (2 ** 32))
+                for _ in range(st.draw(1, 3, "pre-ops")):
+                    k = st.draw(0, 8, "pre-op")
+                    if k == 0:
+                        c = st.pick((2.0, 0.5, -3.0, 10.0), "c"); wv.scale_y(c); hist.append(f"scale_y({c})")
+                    elif k == 1:
+                        c = st.pick((5.0, -20.0, 100.0), "c"); wv.shift_y(c); hist.append(f"shift_y({c})")
+                    elif k == 2:
+                        wv.append_one_sample(make_periodic=st.coin(1, 2, "p")); hist.append("append_one_sample")
+                    elif k == 3:
+                        wv.repeat(2); hist.append("repeat(2)")
+                    elif k == 4 and len(wv) > 8:
+                        wv.truncate_by_index(2, len(wv) - 2); hist.append("truncate_by_index(2, -2)")
+                    elif k == 5 and len(wv) * 4 < 4000:
+                        m = st.pick((2, 3, 4), "n")
+                        cls = st.pick(("PiecewiseConstantRFA", "LinearFixedRFA", "ExpAdaptiveRFA"), "strategy")
+                        wv.recreate_from_average(m, rfa_class=getattr(rfa, cls)); hist.append(f"recreate({m}, {cls})")
+                    elif k == 6:
+                        m = st.draw(5, 80, "n"); wv.interpolate(n=m); hist.append(f"interpolate(n={m})")
+                    elif k == 7:
+                        wv.trend(lambda t: 0.3 * t); hist.append("trend(0.3 t)")
+                    else:
+                        wv.noise(20); hist.append("noise(20)")
+                x0, y0 = (np.array(v, dtype=float) for v in wv.get())
+                rx0, ry0 = (np.array(v, dtype=float) for v in wv.get_reference())
+                n = len(y0)
+                spec, expected_std, text = gen_snr(st, n, list(y0))
+                hist.append(f"noise({text})")
+                kw = {}
+                if "db" in spec and spec["db"] is False:
+                    kw["snr_in_db"] = False
+                if "std" in spec:
+                    kw["std"] = spec["std"]
+                mark = len(seam.calls)
+                wv.noise(spec["snr"], **kw)
+        finally:
+            seam.uninstall()
+        rx, ry = wv.get()
+        if not (isinstance(ry, np.ndarray) and ry.shape == (n,)):
+            raise Violation("C15/length-or-type-changed", key, f"noise changed the length/type of y ({case})")
+        if not (isinstance(rx, np.ndarray) and np.array_equal(np.asarray(rx, dtype=float), x0)):
+            raise Violation("C15/x-changed", key, f"Weaver.noise changed x ({case})")
+        if len(seam.calls) == mark + 1:
+            z = np.asarray(seam.calls[-1]["z"], dtype=float)
+            if z.shape != (n,):
+                raise Violation("C15/fewer-draws-than-samples", key, f"draw of shape {z.shape} for {n} samples ({case})")
+            want = expected_std * z
+            got = np.asarray(ry, dtype=float) - y0
+            tol = 1e-9 * max(1.0, float(np.max(np.abs(want))), float(np.max(np.abs(y0))))
+            if not np.all(np.abs(got - want) <= tol):
+                i = int(np.argmax(np.abs(got - want)))
+                raise Violation("C15/noise-term-wrong", key,
+                                f"after {hist[:-1]} the noise step changed y[{i}] by {got[i]:.9g}, the definition applied to "
+                                f"the processed series at that moment gives std*z = {want[i]:.9g} ({case})")
+            res.stats["seam-reached"] += 1
+        else:
+            res.stats["seam-not-reached" if len(seam.calls) == mark else "seam-multiple-draws-not-judged"] += 1
+    except Violation as v:
+        res.violation = {"cls": v.cls, "key": v.key, "msg": v.msg}
+    except Exception as e:
+        res.violation = {"cls": "C15/noise-raised", "key": key, "msg": f"history raised {type(e).__name__}: {e} ({case})"}
+    res.choices = list(st.rec)
+    res.digest = int.from_bytes(hashlib.sha256(repr((hist, ys[:20], seed)).encode()).digest()[:8], "big")
+    res.nontrivial = True
+    res.sample = dict(case)
+    res.steps = len(hist)
+    res.log = [case] if keep_log else None
+    return res
+
+
 def run_blackbox_case(st, keep_log=False):
     """Real generator: reproducibility under a fixed seed, and >= 6-sigma statistics on 2*10^5 samples."""
     res = R.Result()
@@ -298,6 +388,8 @@ def _run(params, st, keep_log=False):
     isolate.reset_library_state()
     if params["gen"] == "blackbox":
         return run_blackbox_case(st, keep_log)
+    if params["gen"] == "history":
+        return run_history_case(st, keep_log)
     return run_seam_case(st, keep_log, params_long=params["gen"] == "seam-long")
 
 
@@ -310,7 +402,7 @@ def run_unit(params, seed):
 def plan(tier, verif_seed):
     q = tier == "quick"
     return [{"gen": "blackbox"}] * (16 if q else 400) + [{"gen": "seam-long"}] * (16 if q else 200) + \
-        [{"gen": "seam"}] * (6000 if q else 300000)
+        [{"gen": "history"}] * (1500 if q else 60000) + [{"gen": "seam"}] * (6000 if q else 300000)
 
 
 def describe():
